@@ -750,7 +750,7 @@ func ruleP11Precedence(p *Prog, r *Report) {
 		eachInstr(f, func(in ssa.Instruction) {
 			if st, isSt := in.(*ssa.Store); isSt {
 				if fa, isFa := st.Addr.(*ssa.FieldAddr); isFa && fieldName(fa) == "mode" {
-					if k, isK := constInt(st.Val); isK && k == mode {
+					if k, isK := constInt(st.Val); isK && (k == mode || (mode == 2 && k != 0 && k != 1)) {
 						ok = true
 					}
 				}
